@@ -400,6 +400,13 @@ def dec_macro(ctx):
                 return None
             if last == "is_empty" and "Vec" in cc:
                 return vec_empty
+            if last == "push" and "Vec" in cc and len(c["args"]) == 2:
+                try:
+                    v = folder.fold(c["args"][1])
+                except T.Undecidable:
+                    v = "?"
+                ev.append(("push", tuple(str(x) if isinstance(x, T.Token) else x for x in v) if isinstance(v, (tuple, list)) else v))
+                return None
             r0 = folder._builtin(c)
             if r0 is not NotImplemented:
                 return r0
@@ -418,6 +425,12 @@ def dec_macro(ctx):
         for n in assigned_in_loop:
             if n:
                 fo.env[n] = T.Token(n)
+        # buffers the main loop can fill (any list-valued local it mentions) have unknown content afterwards: a decision of the
+        # suffix that looks at them cannot be folded and is reported
+        used_in_loop = {n0.get("name") for n0 in T.walk(loop_st.get("expr") or loop_st.get("init")) if n0.get("k") in ("Var", "Upvar")}
+        for n in used_in_loop:
+            if n in fo.env and isinstance(fo.env[n], list):
+                fo.env[n] = T.Token(n.split("#")[0])
         fo.exec_stmts(suffix)
         if "expr" in b["body"]:
             try:
@@ -426,7 +439,8 @@ def dec_macro(ctx):
                 pass
         return pre, list(ev)
 
-    bad = {"arm:236": None, "arm:237": None, "arm:other": None, "trailer-iff": None, "fnc1-strip": None}
+    bad = {"arm:236": None, "arm:237": None, "arm:other": None, "trailer-iff": None, "fnc1-strip": None, "eci-span": None}
+    utf8 = f.const("decodation::eci::ECI_UTF8") if f.const("decodation::eci::ECI_UTF8") is not None else 26
     n = 0
     try:
         for raw in (False, True):
@@ -451,6 +465,15 @@ def dec_macro(ctx):
                             bad[key] = "first codewords %r: consumed %r before the main loop, expected %r" % (stream[:2], got_eats, want_eats)
                         if got_eats != want_eats and bad["fnc1-strip"] is None and (not is_macro or got_eats[:1] == want_eats[:1]):
                             bad["fnc1-strip"] = "first codewords %r: consumed %r before the main loop, expected %r" % (stream[:2], got_eats, want_eats)
+                        # character-set spans: when spans are in use (the list is not empty) the re-created trailer gets its own
+                        # UTF-8 span, opened right before it; otherwise the suffix opens none
+                        spans = [e[1] for e in post if e[0] == "push"]
+                        want_spans = 1 if (is_macro and not vec_empty) else 0
+                        ok_span = len(spans) == want_spans and all(isinstance(x, tuple) and len(x) == 2 and x[1] == utf8 for x in spans) \
+                            and (not spans or [e[0] for e in post if e[0] in ("push", "extend")][:2] == ["push", "extend"])
+                        if not ok_span and bad["eci-span"] is None:
+                            bad["eci-span"] = "first codewords %r (raw=%s, spans in use: %s): after the main loop the decoder opens the spans %r, expected %s" % (
+                                stream[:2], raw, not vec_empty, spans, "one UTF-8 span right before the trailer" if want_spans else "none")
                         got_trail = [e[1] for e in post if e[0] == "extend"]
                         if got_trail != ([TRAIL] if is_macro else []) and bad["trailer-iff"] is None:
                             bad["trailer-iff"] = "first codewords %r (raw=%s): after the main loop the decoder appends %r, expected %r" % (stream[:2], raw, got_trail, [TRAIL] if is_macro else [])
@@ -462,6 +485,7 @@ def dec_macro(ctx):
     obs.append(Ob(r, "arm:other", bad["arm:other"] is None, "any other first codeword adds nothing", detail=bad["arm:other"]))
     obs.append(Ob(r, "trailer-iff", bad["trailer-iff"] is None, "RS EOT is appended after the loop exactly when a macro codeword was seen", detail=bad["trailer-iff"]))
     obs.append(Ob(r, "fnc1-strip", bad["fnc1-strip"] is None and f.const("encodation::ascii::FNC1") == 232, "a leading 232 (after an optional macro codeword) is stripped once, nothing else is consumed before the main loop", detail=bad["fnc1-strip"]))
+    obs.append(Ob(r, "eci-span", bad["eci-span"] is None, "when character-set spans are in use, the re-created macro trailer gets its own UTF-8 span (opened right before it), whatever the last span was; otherwise no span is opened", detail=bad["eci-span"]))
     obs.append(Ob(r, "scenarios", n >= 40, "%d combinations of leading codewords, raw flag and ECI-list state folded" % n))
     obs += floor(obs, r, 7, "decoder macro obligations")
     return obs
